@@ -69,6 +69,23 @@ def run(chk, tier, seed):
         chk.broken.append("correspondence C14: frame structure for write program %s differs from the model" % progs[i - 1])
     chk.cov["traces_validated_against_impl"] += len(terms)
     chk.cov["exhaustive"] = tier == "thorough"
+    # truncation at a frame boundary that removes only the tail of the compressed stream (the bzip2 trailer travels in a
+    # frame of its own): must be an error for every payload size
+    tl = ["T%d crypto_tail_search %d %d %d" % (k, a, a + (40 if tier == "quick" else 400), seed + k) for k, a in enumerate((0, 1, 13, 1000, 50000, 99960, 100180, 199480))]
+    tobs = C.run_harness(binary, tl, timeout=900)
+    ntail = 0
+    for l in tl:
+        o = tobs.get(l.split(" ")[0], "MISSING")
+        if " | " not in o:
+            chk.violations.append(("the trailing-frame truncation search did not complete: " + o[:80], {"harness_line": l}))
+            continue
+        for ent in o.split(" | ", 1)[1].split(" ; "):
+            if ent:
+                ntail += 1
+                if "-> ERR-" not in ent:
+                    chk.violations.append(("an encrypted file truncated at its last frame boundary is not rejected: " + ent, {"harness_line": l, "observed": o[:300]}))
+    chk.add_eval(ntail)
+    chk.cov["trailing_frame_truncations"] = ntail
     chk.cov["rule"] = ("encrypted saves of sampled values: every (quick: every 2nd) byte position x 3 replacement values, every truncation length, 8 wrong passwords incl. "
                        "prefixes/suffixes of the right one; multi-chunk files of incompressible data with all header, length-field and tag bytes and a strided sweep; "
                        "oracle: always an error, never a value, never a panic; frame structure compared with the CryptoWriter model in Coq")
